@@ -111,33 +111,24 @@ func H_C10_file_save() {
 	}
 	name := verifTempFileWith("filename", pre, exists)
 	err := c10File(noFormat, n).Save(name)
-	if verifEffectCount() < 0 {
-		// native replay: observe the file system instead of the effect trace
-		content, found := verifReadTempFile(name)
-		if renderFails {
-			verifAssert(err != nil, "a render/format failure is returned")
-			verifAssert(found == exists && (!found || content == pre), "target untouched when rendering fails")
-			return
-		}
-		verifAssert(err == nil, "success returns nil")
-		verifAssert(found && content == expected, "on success the saved file holds exactly the rendered output")
-		return
-	}
+	// the file system afterwards: natively the real file, symbolically the engine's model of it
+	content, found := verifReadTempFile(name)
 	if renderFails {
 		verifAssert(err != nil, "a render/format failure is returned")
-		verifAssert(verifEffectCount() == 0, "target untouched when rendering fails")
+		verifAssert(found == exists && (!found || content == pre), "target untouched when rendering fails")
 		return
 	}
-	// whatever else consults the file system, the last operation writes the output to the target
-	last := verifEffectCount() - 1
-	verifAssert(last >= 0 && verifEffectName(last) == "os.WriteFile", "on success the saved file holds exactly the rendered output")
-	if last < 0 || verifEffectName(last) != "os.WriteFile" {
+	if verifFSFailed() {
+		verifAssert(err != nil, "the file system's error is returned, never swallowed")
 		return
 	}
-	verifAssert(verifEffectArg(last, 0) == name, "written to the requested file")
-	verifAssert(verifEffectArg(last, 1) == expected, "saved file holds exactly the rendered output")
-	verifAssert(verifEffectArg(last, 2) == "420", "mode 0644")
-	verifAssert((err != nil) == verifEffectFailed(last), "the file system's error is returned, and only it")
+	verifAssert(err == nil, "success returns nil")
+	verifObserve("saved", content)
+	verifAssert(found && content == expected, "on success the saved file holds exactly the rendered output")
+	if !exists {
+		m := verifFSCreatedMode(name)
+		verifAssert(m == -1 || m == 420, "a new file is created with mode 0644")
+	}
 }
 
 func c10Fragment(which int, n int, w *faultWriter, rawBuf *bytes.Buffer) (err error, rawErr error) {
